@@ -44,8 +44,27 @@ __CPROVER_requires(__CPROVER_is_fresh(self, sizeof(PresaltedSipHasher)) && __CPR
 __CPROVER_ensures(__CPROVER_return_value == spec_siphash24(g_k0, g_k1, val->w[0], val->w[1], val->w[2], val->w[3], 4, ((uint64_t)LEN36 << 56) | extra))
 __CPROVER_assigns();
 
+/* ---- ChaCha20Aligned: the end of the per-block loop of Keystream and of Crypt (same text in both): the running counter (j12 low word, j13 high word) goes back into input[8], input[9] ---- */
+typedef struct { uint32_t input[12]; } ChaCha20Aligned;
+#define STORE_CONTRACT(fn) \
+int fn(ChaCha20Aligned* self, size_t blocks, uint32_t j12, uint32_t j13) \
+__CPROVER_requires(__CPROVER_is_fresh(self, sizeof(ChaCha20Aligned))) \
+__CPROVER_ensures((__CPROVER_return_value == 1) == (blocks == 1)) \
+__CPROVER_ensures(blocks == 1 ==> (self->input[8] == j12 && STORE_HI)) \
+__CPROVER_ensures(blocks != 1 ==> (self->input[8] == __CPROVER_old(self->input[8]) && self->input[9] == __CPROVER_old(self->input[9]))) \
+__CPROVER_assigns(self->input[8], self->input[9]);
+#ifdef TWIN_STORE
+#define STORE_HI (self->input[9] == j13 + 1)
+#else
+#define STORE_HI (self->input[9] == j13)
+#endif
+STORE_CONTRACT(ChaCha20Aligned_Keystream_store_counter)
+STORE_CONTRACT(ChaCha20Aligned_Crypt_store_counter)
+
 #define C49_FUNCS
 #include "slices.h"
+void h_Keystream_store_counter(void) { ChaCha20Aligned* c; size_t b; uint32_t lo, hi; int r = ChaCha20Aligned_Keystream_store_counter(c, b, lo, hi); if (r) VERIF_REACH_PT("last block"); else VERIF_REACH_PT("more blocks"); }
+void h_Crypt_store_counter(void) { ChaCha20Aligned* c; size_t b; uint32_t lo, hi; int r = ChaCha20Aligned_Crypt_store_counter(c, b, lo, hi); if (r) VERIF_REACH_PT("last block"); else VERIF_REACH_PT("more blocks"); }
 void h_presalted_u256(void) { const PresaltedSipHasher* h; const uint256_c* v; g_k0 = nondet_u64(); g_k1 = nondet_u64(); uint64_t r = PresaltedSipHasher_call(h, v); VERIF_REACH_PT("hashed"); }
 void h_presalted_extra(void) { const PresaltedSipHasher* h; const uint256_c* v; uint32_t e; g_k0 = nondet_u64(); g_k1 = nondet_u64(); uint64_t r = PresaltedSipHasher_call_extra(h, v, e); VERIF_REACH_PT("hashed"); }
 /* CSipHasher(k0,k1) as the constructor builds it: keyed state, no pending bytes */
